@@ -31,8 +31,14 @@ Definition result_eqb (a b : result) : bool :=
 
 (* what the harness saw of one completed call *)
 Inductive obs :=
-| ORes (r : result)   (* SchemaCache.Schema: error, or the unfolding of the returned schema *)
-| OSame (b : bool).   (* a codec call: did it return what it returns when run alone *)
+| ORes (r : result) (id : N)
+    (* SchemaCache.Schema: error / nil / the unfolding of the returned schema, and which object
+       was returned: id = the index, in order of first appearance over (thread, call), of the
+       returned pointer among all schemas returned in this case (0 when no schema) *)
+| OCall (cls solo_cls : N) (same : bool).
+    (* a codec call (encode / decode / query-decode): its class (0 returned normally, 1 returned an
+       error, 2 panicked), the class of the same call run alone on a fresh codec, and whether it
+       returned exactly what it returns alone (encode output bytes / decoded message / error text) *)
 
 (* depth, type universe, calls per thread, schedule (incl. the drain), the hook each
    scheduled thread was at after its step, the results of the completed calls *)
@@ -41,11 +47,12 @@ Inductive c10case :=
 
 Definition obs_ok (k : nat) (g : graph) (n : name) (m : result) (o : obs) : bool :=
   match o with
-  | ORes r => result_eqb m r
-  | OSame b =>
-      if result_eqb m (result_solo k g n) then b
+  | ORes r _ => result_eqb m r
+  | OCall cls solo_cls same =>
+      if result_eqb m (result_solo k g n) then same && N.eqb cls solo_cls
       else match m with
-           | RErr | RNil => negb b   (* the codec call fails: NewRoot got no schema *)
+           | RErr => negb same && N.eqb cls 1    (* NewRoot got an error where alone it gets a schema *)
+           | RNil => negb same && negb (N.eqb cls 0)
            | ROk _ => true      (* a schema with an unlinked part: depends on the message *)
            end
   end.
@@ -68,16 +75,53 @@ Fixpoint threads_ok (k : nat) (g : graph) (calls : list (list name)) (ms : list 
   | _, _, _ => false
   end.
 
+(* ---- identity of the returned objects ------------------------------------------------- *)
+(* the cells handed to thread t, in order *)
+Definition cells_of (t : tid) (rs : list (tid * name * cellid)) : list cellid :=
+  map (fun x => snd x) (filter (fun x => Nat.eqb (fst (fst x)) t) rs).
+
+(* per result of a thread, the cell it handed out (None: no schema) *)
+Fixpoint cells_for (ms : list result) (cs : list cellid) : list (option cellid) :=
+  match ms with
+  | [] => []
+  | ROk _ :: r =>
+      match cs with
+      | c :: cr => Some c :: cells_for r cr
+      | [] => None :: cells_for r []
+      end
+  | _ :: r => None :: cells_for r cs
+  end.
+
+Fixpoint id_pairs (cs : list (option cellid)) (os : list obs) : list (cellid * N) :=
+  match cs, os with
+  | Some c :: cr, ORes (ROk _) id :: or => (c, id) :: id_pairs cr or
+  | _ :: cr, _ :: or => id_pairs cr or
+  | _, _ => []
+  end.
+
+(* the same object in the model iff the same pointer in the implementation *)
+Definition ids_consistent (ps : list (cellid * N)) : bool :=
+  forallb (fun a => forallb (fun b => Bool.eqb (Nat.eqb (fst a) (fst b)) (N.eqb (snd a) (snd b))) ps) ps.
+
+Fixpoint all_id_pairs (t : tid) (rs : list (tid * name * cellid)) (ms : list (list result)) (os : list (list obs)) : list (cellid * N) :=
+  match ms, os with
+  | m :: mr, o :: or => id_pairs (cells_for m (cells_of t rs)) o ++ all_id_pairs (S t) rs mr or
+  | _, _ => []
+  end.
+
 Definition c10_check_with (d : disc) (c : c10case) : bool :=
   match c with
   | C10Case k g calls sched trace res =>
       let k' := N.to_nat k in
+      let sch := map N.to_nat sched in
       (* the forced schedules of the harness run on a real sync.Mutex with every other
          goroutine parked: Unlock wakes the longest-waiting goroutine, which takes the lock
          and runs up to its cache.lookup hook before the harness regains control — the
          first-come-first-served hand-off policy over the machine of Conc.v *)
-      let (st, tr) := hrun_trace fifo_grant d k' g calls (map N.to_nat sched) in
-      nlist_eqb tr trace && threads_ok k' g calls (results st) res
+      let (st, tr) := hrun_trace fifo_grant d k' g calls sch in
+      let rs := rets d k' g calls (expand fifo_grant d k' g sch (init calls)) in
+      nlist_eqb tr trace && threads_ok k' g calls (results st) res &&
+      ids_consistent (all_id_pairs 0 rs (results st) res)
   end.
 
 (* the model is evaluated under the discipline the Go source follows now *)
